@@ -199,3 +199,33 @@ pub fn content_from_json(v: &serde_json::Value) -> Content {
     }
     c
 }
+
+/// A few large archives (text section and tables well beyond 64 KiB) — catches width
+/// truncations that no small archive can show.
+pub fn big_cases() -> Vec<Content> {
+    let mut v = Vec::new();
+    for e in [End::Little, End::Big] {
+        for n in [300usize, 20_000] {
+            let mut c = Content::new(e);
+            c.data = (0..4 * n).map(|i| (i as u8).wrapping_mul(29).wrapping_add(5)).collect();
+            for i in 0..n {
+                let a = 4 * i;
+                match i % 3 {
+                    0 => {
+                        c.strings.insert(a, format!("string-number-{:05}-日本", (i / 3) % 7000));
+                    }
+                    1 => {
+                        c.pointers.insert(a, (a * 7) % (4 * n + 1));
+                    }
+                    _ => {}
+                }
+                if i % 4 == 0 {
+                    c.labels.insert(a, vec![format!("Label{:05}", n - i)]);
+                }
+            }
+            c.labels.insert(4 * n, vec!["End".to_string()]);
+            v.push(c);
+        }
+    }
+    v
+}
